@@ -45,6 +45,7 @@ type FuncContract struct {
 	HasMod    bool
 	Loops     map[int]*LoopSpec
 	Asserts   []AssertAt
+	Assumes   []AssertAt // explicit, listed assumptions at anchors (after call ...)
 	NoPanic   bool
 	Trusted   bool // contract assumed, body not verified
 	NoSafety  map[string]bool
@@ -105,7 +106,7 @@ func newContractSet() *ContractSet {
 
 var blockKw = map[string]bool{"func": true, "spec": true, "pred": true, "lemma": true, "axiom": true, "atomic": true, "recspec": true, "uninterp": true}
 var clauseKw = map[string]bool{"requires": true, "ensures": true, "modifies": true, "loop": true, "assert": true,
-	"arith": true, "nopanic": true, "trusted": true, "abstract": true, "note": true, "nosafety": true, "params": true, "bounded": true, "opaque": true, "timeout": true, "uses": true}
+	"assume": true, "arith": true, "nopanic": true, "trusted": true, "abstract": true, "note": true, "nosafety": true, "params": true, "bounded": true, "opaque": true, "timeout": true, "uses": true}
 
 type rawLine struct {
 	text string
@@ -320,6 +321,20 @@ func (cs *ContractSet) parseBlock(b []rawLine, file, pkg string) error {
 					return err
 				}
 				fc.Asserts = append(fc.Asserts, AssertAt{Anchor: strings.TrimSpace(a[:i]), Clause: c})
+			case "assume":
+				if !strings.HasPrefix(arg, "at ") {
+					return fmt.Errorf("%s:%d: assume needs 'at <anchor>:'", file, l.line)
+				}
+				a := strings.TrimPrefix(arg, "at ")
+				i := strings.Index(a, ": ")
+				if i < 0 {
+					return fmt.Errorf("%s:%d: assume needs ': expr'", file, l.line)
+				}
+				c, err := mkClause(strings.TrimSpace(a[i+2:]), file, l.line)
+				if err != nil {
+					return err
+				}
+				fc.Assumes = append(fc.Assumes, AssertAt{Anchor: strings.TrimSpace(a[:i]), Clause: c})
 			case "arith":
 				fc.Arith = arg
 			case "nopanic":
